@@ -185,6 +185,41 @@ def _drive(fn, args):
     return res
 
 
+def child_cover(profile, cfg, ops, known):
+    """Reach probe: replays a recorded history with a line tracer and returns the set of executed
+    (file, line) pairs of the barril sources (tests excluded).  Never part of a verdict."""
+    import sys
+
+    prefix = src_prefix()
+    seen = set()
+
+    def local(frame, event, arg):
+        if event == "line":
+            seen.add((frame.f_code.co_filename, frame.f_lineno))
+        return local
+
+    def glob(frame, event, arg):
+        fn = frame.f_code.co_filename
+        if fn.startswith(prefix) and "/_tests/" not in fn:
+            seen.add((fn, frame.f_lineno))
+            return local
+        return None
+
+    profile.setup_world(cfg)
+    sim = profile.make_sim(cfg, known)
+    sim.stop_on_violation = False
+    plain = [{k: v for k, v in o.items() if k not in ("intr", "sweep", "probes")} for o in ops if o["k"] != "flt.restart"]
+    source = ListSource(plain, 0, False)
+    sys.settrace(glob)
+    try:
+        run_history(sim, source, len(plain) + 8)
+    except Exception:
+        pass
+    finally:
+        sys.settrace(None)
+    return sorted((f[len(prefix) :], l) for f, l in seen)
+
+
 def execute_seed(profile, seed, tier, known):
     """All executions for one generated run; returns a result dict with every violation found."""
     full = _drive(child_full, (profile, seed, tier, known, None))
